@@ -286,39 +286,43 @@ impl RtpsWriterProxy {
                 self.acknack_count(),
             );
 
-            let rtps_message = if let Some(missing_change_fragments_seq_num) = self
+            let nack_frag_submessage = self
                 .missing_changes()
                 .take(256)
                 .find(|s| self.frag_buffer.iter().any(|x| &x.writer_sn() == s))
-            {
-                let frag = self
-                    .frag_buffer
-                    .iter()
-                    .find(|x| x.writer_sn() == missing_change_fragments_seq_num)
-                    .expect("Must exist");
-                let total_fragments_expected =
-                    frag.data_size().div_ceil(frag.fragment_size() as u32);
-                let mut missing_fragments_iter = (1..=total_fragments_expected)
-                    .filter(|frag_num| {
-                        !self.frag_buffer.iter().any(|f| {
-                            f.writer_sn() == missing_change_fragments_seq_num
-                                && &f.fragment_starting_num() == frag_num
+                .and_then(|missing_change_fragments_seq_num| {
+                    let frag = self
+                        .frag_buffer
+                        .iter()
+                        .find(|x| x.writer_sn() == missing_change_fragments_seq_num)?;
+                    let total_fragments_expected =
+                        frag.data_size().div_ceil(frag.fragment_size() as u32);
+                    let mut missing_fragments_iter = (1..=total_fragments_expected)
+                        .filter(|frag_num| {
+                            !self.frag_buffer.iter().any(|f| {
+                                f.writer_sn() == missing_change_fragments_seq_num
+                                    && &f.fragment_starting_num() == frag_num
+                            })
                         })
-                    })
-                    .peekable();
+                        .peekable();
 
-                let base = *missing_fragments_iter
-                    .peek()
-                    .expect("At least a fragment must be missing");
-                let fragment_number_state = FragmentNumberSet::new(base, missing_fragments_iter);
-                let nack_frag_submessage = NackFragSubmessage::new(
-                    reader_guid.entity_id(),
-                    self.remote_writer_guid().entity_id(),
-                    missing_change_fragments_seq_num,
-                    fragment_number_state,
-                    self.nack_frag_count,
-                );
+                    // Nothing to request when every fragment number is already buffered
+                    let base = *missing_fragments_iter.peek()?;
+                    // A FragmentNumberSet holds at most 256 numbers starting at its base
+                    let fragment_number_state = FragmentNumberSet::new(
+                        base,
+                        missing_fragments_iter.take_while(|frag_num| frag_num - base < 256),
+                    );
+                    Some(NackFragSubmessage::new(
+                        reader_guid.entity_id(),
+                        self.remote_writer_guid().entity_id(),
+                        missing_change_fragments_seq_num,
+                        fragment_number_state,
+                        self.nack_frag_count,
+                    ))
+                });
 
+            let rtps_message = if let Some(nack_frag_submessage) = nack_frag_submessage {
                 RtpsMessageWrite::from_submessages(
                     &[
                         &info_dst_submessage,
